@@ -34,6 +34,21 @@ pub fn all_tokens_dropped_exactly_once() -> bool {
     }
 }
 
+/// no token created so far is still alive (to be asserted at the very end of a harness)
+pub fn no_token_leaked() -> bool {
+    unsafe {
+        let mut i = 0;
+        let mut ok = true;
+        while i < NEXT_ID {
+            if DROPS[i] == 0 {
+                ok = false;
+            }
+            i += 1;
+        }
+        ok && ZDROPPED >= ZMADE
+    }
+}
+
 /// no token created so far has been destroyed twice
 pub fn no_token_dropped_twice() -> bool {
     unsafe {
